@@ -1,0 +1,26 @@
+//go:build verif
+
+// Machine-checked contracts for package apk (comment-only; see /verif/DESIGN.md).
+
+package apk
+
+//@ func verify
+//@   property C02
+//@   ghost dirOfFile *zipslicer.Directory = nil
+//@   on call getSigBlock(_) ret (z, b, e): dirOfFile = z
+//@   before call (*apkSigner).Verify(_, z): assert @v2_content_digests_are_recomputed_from_the_file z != nil && z == dirOfFile
+//@
+//@ func (*apkSigner).Verify
+//@   property C02
+//@   ghost sigsOK int = 0
+//@   ghost cmpOK int = 0
+//@   ghost recomputed [][]byte = nil
+//@   ghost leafEq bool = false
+//@   on call (*apkSignature).VerifySignature(_, k, d) ret (h, e): sigsOK = sigsOK + ite(e == nil && k == publicKey, 1, 0)
+//@   on call (*merkleHasher).Finish(_, z, _) ret (ds, e): recomputed = ds
+//@   on call crypto/hmac.Equal(a, b) ret (r): cmpOK = cmpOK + ite(r && sameslice(a, digest.Value) && sameslice(b, recomputed[i]), 1, 0)
+//@   on call bytes.Equal(a, b) ret (r): leafEq = leafEq || (r && sameslice(a, cert.RawSubjectPublicKeyInfo) && sameslice(b, s.PublicKey))
+//@   loop 0 sig "for _, sig := range s.Signatures" invariant sigsOK == rangeindex + 1 && -1 <= rangeindex && rangeindex < len(s.Signatures)
+//@   loop 3 sig "for i, digest := range signedData.Digests" invariant cmpOK == rangeindex + 1 && -1 <= rangeindex && rangeindex < len(signedData.Digests)
+//@   ensures @every_v2_signature_value_verified ret1 == nil ==> len(s.Signatures) >= 1 && sigsOK == len(s.Signatures)
+//@   ensures @every_signed_digest_compared_with_the_recomputed_one ret1 == nil && inz != nil ==> len(signedData.Digests) >= 1 && cmpOK == len(signedData.Digests)
